@@ -34,6 +34,8 @@ pub struct Doc {
     pub spelling: usize,
     /// 0 scalar, 1 block sequence, 2 flow mapping
     pub node: u8,
+    /// written without a `---` line (only where that is legal: no directives, tagged or untagged node)
+    pub bare: bool,
 }
 
 fn render_doc(d: &Doc) -> String {
@@ -45,8 +47,17 @@ fn render_doc(d: &Doc) -> String {
     for l in lines {
         s.push_str(&l);
     }
-    s.push_str("---");
     let sp = SPELLINGS[d.spelling].0;
+    if d.bare && d.directives.is_empty() && d.yaml_at.is_none() {
+        // a bare document: the node starts the line
+        match d.node {
+            0 => s.push_str(&format!("{sp}{}a\n", if sp.is_empty() { "" } else { " " })),
+            1 => s.push_str(&format!("{sp}{}- a\n", if sp.is_empty() { "" } else { "\n" })),
+            _ => s.push_str(&format!("{sp}{}{{a: b}}\n", if sp.is_empty() { "" } else { " " })),
+        }
+        return s;
+    }
+    s.push_str("---");
     if !sp.is_empty() {
         s.push(' ');
         s.push_str(sp);
@@ -95,7 +106,7 @@ fn model_doc(d: &Doc, table: &mut BTreeMap<String, String>, keep: bool) -> Resul
 
 fn case_json(docs: &[Doc], seps: &[bool], keep: bool, text: &str) -> Value {
     json!({"kind": "tags", "keep_tags": keep, "text": text, "separators_docend": seps,
-        "docs": docs.iter().map(|d| json!({"directives": d.directives.iter().map(|(h, p)| json!([h, p])).collect::<Vec<_>>(), "yaml_at": d.yaml_at, "spelling": d.spelling, "node": d.node})).collect::<Vec<_>>()})
+        "docs": docs.iter().map(|d| json!({"directives": d.directives.iter().map(|(h, p)| json!([h, p])).collect::<Vec<_>>(), "yaml_at": d.yaml_at, "spelling": d.spelling, "node": d.node, "bare": d.bare})).collect::<Vec<_>>()})
 }
 
 pub fn eval(docs: &[Doc], seps: &[bool], keep: bool, acc: &mut Acc) {
@@ -103,7 +114,7 @@ pub fn eval(docs: &[Doc], seps: &[bool], keep: bool, acc: &mut Acc) {
     let mut text = String::new();
     for (i, d) in docs.iter().enumerate() {
         if i > 0 {
-            let needs = !d.directives.is_empty() || d.yaml_at.is_some();
+            let needs = !d.directives.is_empty() || d.yaml_at.is_some() || d.bare;
             if needs || seps[i - 1] {
                 text.push_str("...\n");
             }
@@ -207,7 +218,10 @@ fn docs_over(sets: &[Vec<(usize, usize)>], yaml: bool, nodes: &[u8]) -> Vec<Doc>
         for y in yamls {
             for sp in 0..SPELLINGS.len() {
                 for &n in nodes {
-                    v.push(Doc { directives: s.clone(), yaml_at: y, spelling: sp, node: n });
+                    v.push(Doc { directives: s.clone(), yaml_at: y, spelling: sp, node: n, bare: false });
+                    if s.is_empty() && y.is_none() {
+                        v.push(Doc { directives: vec![], yaml_at: None, spelling: sp, node: n, bare: true });
+                    }
                 }
             }
         }
@@ -217,7 +231,18 @@ fn docs_over(sets: &[Vec<(usize, usize)>], yaml: bool, nodes: &[u8]) -> Vec<Doc>
 
 pub fn replay(case: &Value) -> Result<Acc, String> {
     let mut acc = Acc::default();
-    let docs: Vec<Doc> = case["docs"].as_array().ok_or("no docs")?.iter().map(|d| Doc { directives: d["directives"].as_array().map(|a| a.iter().map(|x| (x[0].as_u64().unwrap_or(0) as usize, x[1].as_u64().unwrap_or(0) as usize)).collect()).unwrap_or_default(), yaml_at: d["yaml_at"].as_u64().map(|x| x as usize), spelling: d["spelling"].as_u64().unwrap_or(0) as usize, node: d["node"].as_u64().unwrap_or(0) as u8 }).collect();
+    if case["kind"] == "escape" {
+        // re-run the one text; the expectation is recomputed from the code point
+        let text = case["text"].as_str().ok_or("no text")?;
+        let c = char::from_u32(case["codepoint"].as_u64().unwrap_or(0) as u32).ok_or("bad code point")?;
+        acc.evals += 1;
+        let got = observe(text, Backend::Str, Api::Iter).ok().and_then(|o| if o.err.is_some() { None } else { o.evs.iter().find_map(|e| if let Ev::Sc(_, _, _, Some(t)) = &e.0 { Some(format!("{}{}", t.0, t.1)) } else { None }) });
+        if !got.as_ref().map_or(false, |g| g.contains(c)) {
+            acc.violation(Violation { key: "tags percent-escape".into(), expected: format!("a tag containing {c:?}"), observed: format!("{got:?}"), case: case.clone(), size: text.len() });
+        }
+        return Ok(acc);
+    }
+    let docs: Vec<Doc> = case["docs"].as_array().ok_or("no docs")?.iter().map(|d| Doc { directives: d["directives"].as_array().map(|a| a.iter().map(|x| (x[0].as_u64().unwrap_or(0) as usize, x[1].as_u64().unwrap_or(0) as usize)).collect()).unwrap_or_default(), yaml_at: d["yaml_at"].as_u64().map(|x| x as usize), spelling: d["spelling"].as_u64().unwrap_or(0) as usize, node: d["node"].as_u64().unwrap_or(0) as u8, bare: d["bare"].as_bool().unwrap_or(false) }).collect();
     let seps: Vec<bool> = case["separators_docend"].as_array().map(|a| a.iter().map(|x| x.as_bool().unwrap_or(false)).collect()).unwrap_or_default();
     eval(&docs, &seps, case["keep_tags"].as_bool().unwrap_or(false), &mut acc);
     Ok(acc)
@@ -275,6 +300,49 @@ pub fn check(tier: Tier) -> i32 {
         rep.acc.merge(acc);
         rep.scope("3-document streams", n, done == idx.len() as u64);
     }
+    // percent-escaped UTF-8 in suffixes, verbatim tags: every lead byte class, lowest and highest
+    // code point of each, and a sweep over code points
+    let mut cps: Vec<u32> = vec![0x21, 0x7e, 0x80, 0xbf, 0xc0, 0xff, 0x100, 0x3ff, 0x400, 0x416, 0x7ff, 0x800, 0xfff, 0x1000, 0x4e2d, 0x7fff, 0x8000, 0x9ec4, 0xd7ff, 0xe000, 0xfffd, 0x10000, 0x1f600, 0x3ffff, 0x40000, 0xfffff, 0x100000, 0x10fffd, 0x10ffff];
+    for lead in 0xc2u32..=0xdf {
+        cps.push((lead & 0x1f) << 6);
+        cps.push(((lead & 0x1f) << 6) | 0x3f);
+    }
+    for lead in 0xe0u32..=0xef {
+        cps.push(((lead & 0x0f) << 12) | 0x800);
+        cps.push(((lead & 0x0f) << 12) | 0xfff);
+    }
+    for lead in 0xf0u32..=0xf4 {
+        cps.push(((lead & 0x07) << 18) | 0x10000);
+        cps.push((((lead & 0x07) << 18) | 0x3ffff).min(0x10ffff));
+    }
+    let cps: Vec<char> = cps.into_iter().filter_map(char::from_u32).filter(|c| !c.is_control() && *c != ' ').collect();
+    let (acc, done) = par_blocks(cps.len() as u64, &budget, |b, acc| {
+        let c = cps[b as usize];
+        let mut enc = String::new();
+        let mut buf = [0u8; 4];
+        for byte in c.encode_utf8(&mut buf).bytes() {
+            enc.push_str(&format!("%{byte:02X}"));
+        }
+        for (text, want) in [(format!("--- !<tag:{enc}x> a\n"), format!("tag:{c}x")), (format!("%TAG !e! tag:e:\n--- !e!{enc} a\n"), format!("tag:e:{c}")), (format!("--- !a{}z a\n", enc.to_lowercase()), format!("!a{c}z"))] {
+            acc.evals += 1;
+            let got = match observe(&text, Backend::Str, Api::Iter) {
+                Err(m) => Err(format!("panic: {m}")),
+                Ok(o) => match &o.err {
+                    Some(e) => Err(e.info.clone()),
+                    None => Ok(o.evs.iter().find_map(|e| if let Ev::Sc(_, _, _, Some(t)) = &e.0 { Some(format!("{}{}", t.0, t.1)) } else { None })),
+                },
+            };
+            if got != Ok(Some(want.clone())) {
+                let class = match c.len_utf8() { 1 => "1-byte", 2 => "2-byte", 3 => "3-byte", _ => "4-byte" };
+                acc.violation(Violation { key: format!("tags percent-escape class={class} what={}", if got.is_err() { "rejected" } else { "wrong-char" }), expected: want, observed: format!("{got:?}"), case: json!({"kind": "escape", "text": text, "codepoint": c as u32}), size: text.len() });
+            }
+            acc.class(h64(&text));
+        }
+    });
+    let n = acc.evals;
+    states += n;
+    rep.acc.merge(acc);
+    rep.scope(&format!("percent-escaped code points ({})", cps.len()), n, done == cps.len() as u64);
     rep.mc = Some((states.max(1), states.max(1), states));
     rep.extra.insert("explanation".into(), json!("states = abstract streams enumerated; traces_validated = parses on the real parser compared with the handle-table model"));
     rep.finish()
